@@ -147,6 +147,7 @@ class Engine:
         self.inline_depth = 0
         self._feas_cache = {}
         self._merge_raise_stmt = None
+        self.inlined = {}
 
     # ------------------------------------------------------------------ driver
     def run(self) -> List[VC]:
@@ -413,6 +414,15 @@ class Engine:
         if k == "opt":
             return z3.And(z3.Not(v.t[0]), self.truth(v.t[1]))
         if k == "obj":
+            cd = self.reg.classes.get(v.cls)
+            if cd is not None and cd.truth:
+                self.clause_env_stack.append({"self": v})
+                self.spec_mode += 1
+                try:
+                    return self.truth(self.ev(ast.parse(cd.truth, mode="eval").body))
+                finally:
+                    self.spec_mode -= 1
+                    self.clause_env_stack.pop()
             return z3.BoolVal(True)
         if k == "str":
             return z3.Length(v.t) > 0
@@ -1265,6 +1275,8 @@ class Engine:
                 f = {ast.Add: z3.fpAdd, ast.Sub: z3.fpSub, ast.Mult: z3.fpMul, ast.Div: z3.fpDiv}[type(op)]
                 return mk_float(f(RNE, fa, fb))
             raise OutOfReach("float op")
+        if a.k == "opaque" and b.k == "opaque" and isinstance(op, ast.Add):
+            return V("opaque", z3.Const(fresh_name("cat"), opaque_sort(a.cls)), a.cls)   # concatenation of unmodelled lists
         if a.k == "bytes" and b.k == "bytes" and isinstance(op, ast.Add):
             return mk_bytes(z3.Concat(a.t, b.t))
         if a.k == "bytes" and b.k in ("int", "bool") and isinstance(op, ast.Mult):
@@ -1570,6 +1582,8 @@ class Engine:
         idx = self.ev(sl)
         if base.k == "tuple":
             i = z3.simplify(self.as_int(idx))
+            if z3.is_bv_value(i):
+                i = z3.IntVal(i.as_signed_long())
             if not z3.is_int_value(i):
                 raise OutOfReach("symbolic tuple index")
             try:
@@ -1765,7 +1779,7 @@ class Engine:
             g = n.args[0].value
             return mk_int(self.st.ghost.get(g, z3.IntVal(0)))
         if nm == "ncalls":
-            return mk_int(len(self.st.calls.get(n.args[0].value, [])))
+            return self.pyval(len(self.st.calls.get(n.args[0].value, [])))
         if nm == "called_with":
             # called_with("name", lambda a, b, ...: pred) : some recorded call satisfies pred (args by position)
             lam = n.args[1]
@@ -1982,6 +1996,7 @@ class Engine:
         from .extract import extract
         relpath, qual = spec
         x = extract(relpath, qual)
+        self.inlined[(relpath, qual)] = x.sha256
         fdef = x.node
         if self.inline_depth > 4:
             raise OutOfReach("inline depth")
@@ -2360,7 +2375,8 @@ class Engine:
         res = self.ext_result(summ, d)
         post = summ.get("post")
         if post:
-            env = {"result": res}
+            env = dict(self.entry.env)       # parameters of the function under verification (visible from inlined frames too)
+            env["result"] = res
             for i, a in enumerate(args):
                 env[f"arg{i}"] = a
             for kw_ in n.keywords:
